@@ -12,6 +12,17 @@ def search(D=3):
                  lambda m: getattr(m, "new_value", 0) != 6 and getattr(m, "new_value", 0) != 66]     # value-dependent approver: refuses the value 6
     ops = [("add", "a", 9), ("add", "z", 1), ("mutate", "a", 5), ("mutate", "a", 66), ("mutate", "c", 6), ("mutate", "nope", 1), ("rollback", "a"), ("rollback", "c"),
            ("silence", "a"), ("activate", "a"), ("setexpr", "c"), ("replicate", {"a": 7, "c": 8}), ("replicate", None), ("express", {"c": 1}), ("express", None)]
+    # a gene enters at the expression level it declares: one that is silenced by default is not expressed (constructor and add_gene)
+    for via_ctor in (True, False):
+        n += 1
+        with contextlib.redirect_stdout(io.StringIO()):
+            quiet = Gene("q", 4, default_expression=ExpressionLevel.SILENCED)
+            g = Genome(genes=[Gene("a", 1)] + ([quiet] if via_ctor else []), silent=True)
+            if not via_ctor:
+                g.add_gene(quiet)
+            cfg = g.express()
+        if "q" in cfg or "a" not in cfg:
+            return n, f"gene declared with default_expression=SILENCED ({'constructor' if via_ctor else 'add_gene'}) is expressed: express() = {cfg}"
     for allow in (False, True):
         for ai, approve in enumerate(approvals):
             for seq in itertools.product(range(len(ops)), repeat=D):
